@@ -1196,3 +1196,100 @@ pub fn systematic_spurious(thorough: bool, seed: u64) -> Vec<Case> {
     }
     cases
 }
+
+/// Bounded exhaustive exploration of poll orders (C05/C06): for small fixed scenarios every
+/// order in which the woken tasks can be polled after each external event is enumerated
+/// (stateless search: each path is re-executed from scratch and recorded as explicit
+/// `RunOne{pick}` steps). Returns the cases and whether the budget cut the enumeration short.
+pub fn systematic_interleavings(thorough: bool) -> (Vec<Case>, bool) {
+    let budget_per_base = if thorough { 60_000 } else { 2_500 };
+    let connect = ConnectSpec { client_id: Some("sim".into()), ..Default::default() };
+    let p = |id: usize, qos: u8| Step::Op {
+        id,
+        handle: 0,
+        spec: OpSpec::Publish(PublishSpec { qos: Some(qos), topic: Some(format!("t/{id}")), payload: Some(vec![id as u8]), ..Default::default() }),
+    };
+    let ack = |op: usize, kind: AckKind, reason: u8| Step::Broker {
+        pkt: BrokerPkt::Ack { op, kind, reasons: vec![reason], props: Props::new().with(pid::REASON_STRING, PropVal::Str(format!("r{op}"))), form: Form::Full },
+        chunks: Chunks::Whole,
+        hold: false,
+    };
+    let pingresp = || Step::Broker { pkt: BrokerPkt::Pingresp, chunks: Chunks::Whole, hold: false };
+    let ping = |id: usize| Step::Op { id, handle: 0, spec: OpSpec::Ping };
+    let sub = |id: usize| Step::Op { id, handle: 0, spec: OpSpec::Subscribe(SubscribeSpec { filters: vec![(format!("f/{id}/a"), SubOptSpec::default())], user: vec![] }) };
+    // `None` marks a point where every poll order is explored until quiescence
+    let bases: Vec<Vec<Option<Step>>> = vec![
+        vec![Some(p(0, 2)), Some(ping(1)), None, Some(ack(0, AckKind::Pubrec, 0)), Some(pingresp()), None, Some(ack(0, AckKind::Pubcomp, 0)), None],
+        vec![Some(sub(0)), Some(p(1, 1)), Some(p(2, 1)), None, Some(ack(2, AckKind::Puback, 0x10)), Some(ack(1, AckKind::Puback, 0x80)), Some(ack(0, AckKind::Suback, 1)), None],
+        vec![Some(ping(0)), Some(ping(1)), None, Some(pingresp()), None, Some(pingresp()), None],
+        vec![Some(p(0, 2)), Some(p(1, 2)), None, Some(ack(1, AckKind::Pubrec, 0)), Some(ack(0, AckKind::Pubrec, 0x97)), None, Some(ack(1, AckKind::Pubcomp, 0x92)), None],
+    ];
+    let mut cases = Vec::new();
+    let mut capped = false;
+    for select in [SelectPolicy::PacketFirst, SelectPolicy::MessageFirst] {
+        let config = Config { select, handles: 1, ..Config::default() };
+        for base in &bases {
+            let mut choices: Vec<usize> = Vec::new();
+            let mut produced = 0usize;
+            loop {
+                // execute one path
+                let mut w = crate::world::World::new(config.clone());
+                let mut steps = vec![
+                    Step::Start { connect: connect.clone(), auths: vec![] },
+                    Step::Settle { seed: 0 },
+                    Step::Broker { pkt: BrokerPkt::Connack { session_present: false, reason: 0, props: Props::new() }, chunks: Chunks::Whole, hold: false },
+                    Step::Settle { seed: 1 },
+                ];
+                for s in &steps {
+                    w.exec(s);
+                }
+                let mut counts: Vec<usize> = Vec::new();
+                for item in base {
+                    match item {
+                        Some(s) => {
+                            w.exec(s);
+                            steps.push(s.clone());
+                        }
+                        None => loop {
+                            let woken = w.woken_tasks();
+                            if woken.is_empty() || counts.len() > 60 {
+                                break;
+                            }
+                            let c = choices.get(counts.len()).copied().unwrap_or(0).min(woken.len() - 1);
+                            counts.push(woken.len());
+                            let s = Step::RunOne { pick: c };
+                            w.exec(&s);
+                            steps.push(s);
+                        },
+                    }
+                }
+                drop(w);
+                let _ = poster::verif::take_probes();
+                cases.push(sys(&config, steps, "conformant-ops/all-poll-orders"));
+                produced += 1;
+                // next path (odometer over the choice points actually met)
+                let mut path: Vec<usize> = (0..counts.len()).map(|i| choices.get(i).copied().unwrap_or(0).min(counts[i] - 1)).collect();
+                let mut i = path.len();
+                let mut advanced = false;
+                while i > 0 {
+                    i -= 1;
+                    if path[i] + 1 < counts[i] {
+                        path[i] += 1;
+                        path.truncate(i + 1);
+                        advanced = true;
+                        break;
+                    }
+                }
+                if !advanced {
+                    break;
+                }
+                if produced >= budget_per_base {
+                    capped = true;
+                    break;
+                }
+                choices = path;
+            }
+        }
+    }
+    (cases, capped)
+}
